@@ -308,9 +308,9 @@ class Runtime:
             if what == 'ev':
                 self.ev_calls += 1
                 idx = self.ev_calls
-            elif what == 'ev2':
-                self.ev2_calls = getattr(self, 'ev2_calls', 0) + 1
-                idx = self.ev2_calls
+            elif what in ('ev2', 'ev0'):
+                setattr(self, what + '_calls', getattr(self, what + '_calls', 0) + 1)
+                idx = getattr(self, what + '_calls')
             else:
                 self.save_calls += 1
                 idx = self.save_calls
